@@ -3,10 +3,12 @@
 (* The expression language of dagrt as tagged tuples (the JSON interchange *)
 (* format of DESIGN.md appendix A) with its static and dynamic semantics:  *)
 (*   Vars(e)          variables an evaluation of e may read                *)
-(*   Eval(e, st, F)   integer/boolean/array value semantics (Stepper,      *)
-(*                    Rewrite, ExprContracts)                              *)
+(*   Eval(e, st)      integer / boolean / integer-array value semantics    *)
+(*                    (used by Stepper, Rewrite, ExprContracts)            *)
 (* Values are tagged: <<"i", n>>, <<"b", TRUE>>, <<"a", <<n1, ...>>>>,      *)
-(* <<"u">> (undefined / outside the modelled fragment).                    *)
+(* <<"n">> (None) and U = <<"u">>: undefined or outside the modelled       *)
+(* fragment (floats, overflow, out-of-range index, type confusion).  U is  *)
+(* strict: it propagates through every operator that looks at it.          *)
 (***************************************************************************)
 EXTENDS Integers, Sequences, FiniteSets, TLC
 
@@ -23,4 +25,124 @@ Vars(e) ==
       [] e[1] = "call" -> (IF e[2][1] = "v" THEN {} ELSE Vars(e[2])) \cup VarsOfSeq(e[3], 1) \cup VarsOfKw(e[4], 1)
 VarsOfSeq(s, k) == IF k > Len(s) THEN {} ELSE Vars(s[k]) \cup VarsOfSeq(s, k + 1)
 VarsOfKw(s, k)  == IF k > Len(s) THEN {} ELSE Vars(s[k][2]) \cup VarsOfKw(s, k + 1)
+
+----------------------------------------------------------------------------
+U == <<"u">>
+None == <<"n">>
+I(n) == <<"i", n>>
+B(b) == <<"b", b>>
+A(s) == <<"a", s>>
+IsI(v) == v[1] = "i"
+IsB(v) == v[1] = "b"
+IsA(v) == v[1] = "a"
+UndefElem == -99999            \* element of an array created by array(n) and not yet assigned
+Big == 30000                   \* magnitudes beyond this leave the fragment (32-bit TLC integers)
+Small(n) == n >= -Big /\ n <= Big
+Abs(n) == IF n < 0 THEN -n ELSE n
+Clip(n) == IF Small(n) THEN I(n) ELSE U
+
+RECURSIVE PowInt(_, _)
+PowInt(b, k) == IF k = 0 THEN 1 ELSE b * PowInt(b, k - 1)
+
+\* the fixed table of function meanings shared with the harness (harness/funcs.py)
+KwGet(kw, name, dflt) == IF \E k \in DOMAIN kw : kw[k][1] = name
+                         THEN kw[CHOOSE k \in DOMAIN kw : kw[k][1] = name][2] ELSE dflt
+AllInts(s) == \A k \in DOMAIN s : IsI(s[k])
+ElemsDefined(a) == \A k \in DOMAIN a : a[k] # UndefElem
+RECURSIVE SumSeq(_, _), MaxAbs(_, _), Dot(_, _, _)
+SumSeq(s, k) == IF k > Len(s) THEN 0 ELSE s[k] + SumSeq(s, k + 1)
+MaxAbs(s, k) == IF k > Len(s) THEN 0 ELSE LET r == MaxAbs(s, k + 1) IN IF Abs(s[k]) > r THEN Abs(s[k]) ELSE r
+Dot(x, y, k) == IF k > Len(x) THEN 0 ELSE x[k] * y[k] + Dot(x, y, k + 1)
+
+\* result of a call: a value, or a tuple of values <<"t", <<v1, v2>>>> for multi-result functions
+Apply(f, args, kw) ==
+    CASE f = "<func>f" ->
+            IF Len(args) = 1 /\ IsI(args[1]) /\ IsI(KwGet(kw, "k", I(0)))
+            THEN Clip(2 * args[1][2] + KwGet(kw, "k", I(0))[2] + 1) ELSE U
+      [] f = "<func>g" ->
+            IF Len(args) = 2 /\ AllInts(args) /\ Abs(args[1][2]) <= 1000 /\ Abs(args[2][2]) <= 1000
+            THEN Clip(args[1][2] * args[2][2] - args[1][2] + 3) ELSE U
+      [] f = "<func>g2" ->
+            IF Len(args) = 1 /\ IsI(args[1]) /\ Abs(args[1][2]) <= 1000
+            THEN <<"t", <<I(args[1][2] + 1), I(3 * args[1][2])>>>> ELSE U
+      [] f = "<builtin>len" ->
+            LET x == IF Len(args) = 1 THEN args[1] ELSE KwGet(kw, "x", U) IN
+              IF IsA(x) THEN I(Len(x[2])) ELSE IF IsI(x) THEN I(1) ELSE U
+      [] f = "<builtin>array" ->
+            LET n == IF Len(args) = 1 THEN args[1] ELSE KwGet(kw, "n", U) IN
+              IF IsI(n) /\ n[2] >= 0 /\ n[2] <= 8 THEN A([k \in 1..n[2] |-> UndefElem]) ELSE U
+      [] f = "<builtin>norm_inf" ->
+            LET x == IF Len(args) = 1 THEN args[1] ELSE KwGet(kw, "x", U) IN
+              IF IsA(x) /\ ElemsDefined(x[2]) /\ Len(x[2]) > 0 THEN I(MaxAbs(x[2], 1))
+              ELSE IF IsI(x) THEN I(Abs(x[2])) ELSE U
+      [] f = "<builtin>dot_product" ->
+            LET x == IF Len(args) >= 1 THEN args[1] ELSE KwGet(kw, "x", U)
+                y == IF Len(args) >= 2 THEN args[2] ELSE KwGet(kw, "y", U) IN
+              IF IsA(x) /\ IsA(y) /\ Len(x[2]) = Len(y[2]) /\ ElemsDefined(x[2]) /\ ElemsDefined(y[2])
+                 /\ (\A k \in DOMAIN x[2] : Abs(x[2][k]) <= 100 /\ Abs(y[2][k]) <= 100)
+              THEN I(Dot(x[2], y[2], 1)) ELSE U
+      [] f = "<builtin>elementwise_abs" ->
+            LET x == IF Len(args) = 1 THEN args[1] ELSE KwGet(kw, "x", U) IN
+              IF IsA(x) /\ ElemsDefined(x[2]) THEN A([k \in DOMAIN x[2] |-> Abs(x[2][k])])
+              ELSE IF IsI(x) THEN I(Abs(x[2])) ELSE U
+      [] OTHER -> U
+
+RECURSIVE Eval(_, _), EvalSeq(_, _, _), EvalKw(_, _, _), EvalAnd(_, _, _), EvalOr(_, _, _)
+EvalSeq(s, st, k) == IF k > Len(s) THEN <<>> ELSE <<Eval(s[k], st)>> \o EvalSeq(s, st, k + 1)
+EvalKw(s, st, k)  == IF k > Len(s) THEN <<>> ELSE <<<<s[k][1], Eval(s[k][2], st)>>>> \o EvalKw(s, st, k + 1)
+\* and / or evaluate left to right and stop early (Python's all()/any() on a generator)
+EvalAnd(s, st, k) == IF k > Len(s) THEN B(TRUE)
+                     ELSE LET v == Eval(s[k], st) IN
+                          IF ~IsB(v) THEN U ELSE IF ~v[2] THEN B(FALSE) ELSE EvalAnd(s, st, k + 1)
+EvalOr(s, st, k)  == IF k > Len(s) THEN B(FALSE)
+                     ELSE LET v == Eval(s[k], st) IN
+                          IF ~IsB(v) THEN U ELSE IF v[2] THEN B(TRUE) ELSE EvalOr(s, st, k + 1)
+MinOf(s) == CHOOSE m \in {s[k][2] : k \in DOMAIN s} : \A k \in DOMAIN s : m <= s[k][2]
+MaxOf(s) == CHOOSE m \in {s[k][2] : k \in DOMAIN s} : \A k \in DOMAIN s : m >= s[k][2]
+RECURSIVE ProdSeq(_, _)
+ProdSeq(s, k) == IF k > Len(s) THEN 1 ELSE s[k][2] * ProdSeq(s, k + 1)
+RECURSIVE SafeProd(_, _, _)
+\* product with a magnitude check before every multiplication
+SafeProd(s, k, acc) == IF k > Len(s) THEN I(acc)
+                       ELSE IF ~Small(acc * s[k][2]) THEN U ELSE SafeProd(s, k + 1, acc * s[k][2])
+
+Eval(e, st) ==
+    CASE e[1] = "c" -> Clip(e[2])
+      [] e[1] = "cb" -> B(e[2])
+      [] e[1] = "v" -> IF e[2] \in DOMAIN st THEN st[e[2]] ELSE U
+      [] e[1] = "sum" ->
+            LET vs == EvalSeq(e[2], st, 1) IN
+              IF AllInts(vs) THEN Clip(SumSeq([k \in DOMAIN vs |-> vs[k][2]], 1)) ELSE U
+      [] e[1] = "prod" ->
+            LET vs == EvalSeq(e[2], st, 1) IN
+              IF AllInts(vs) /\ (\A k \in DOMAIN vs : Small(vs[k][2])) THEN SafeProd(vs, 1, 1) ELSE U
+      [] e[1] = "pow" ->
+            LET b == Eval(e[2], st)  x == Eval(e[3], st) IN
+              IF IsI(b) /\ IsI(x) /\ x[2] >= 0 /\ x[2] <= 4 /\ Abs(b[2]) <= 12 THEN I(PowInt(b[2], x[2])) ELSE U
+      [] e[1] = "cmp" ->
+            LET l == Eval(e[3], st)  r == Eval(e[4], st) IN
+              IF IsI(l) /\ IsI(r)
+              THEN B(CASE e[2] = "<"  -> l[2] < r[2]   [] e[2] = "<=" -> l[2] <= r[2]
+                       [] e[2] = "==" -> l[2] = r[2]   [] e[2] = "!=" -> l[2] # r[2]
+                       [] e[2] = ">=" -> l[2] >= r[2]  [] e[2] = ">"  -> l[2] > r[2])
+              ELSE U
+      [] e[1] = "and" -> EvalAnd(e[2], st, 1)
+      [] e[1] = "or"  -> EvalOr(e[2], st, 1)
+      [] e[1] = "not" -> LET v == Eval(e[2], st) IN IF IsB(v) THEN B(~v[2]) ELSE U
+      [] e[1] = "if" ->
+            LET c == Eval(e[2], st) IN
+              IF ~IsB(c) THEN U ELSE IF c[2] THEN Eval(e[3], st) ELSE Eval(e[4], st)
+      [] e[1] = "min" -> LET vs == EvalSeq(e[2], st, 1) IN IF AllInts(vs) /\ vs # <<>> THEN I(MinOf(vs)) ELSE U
+      [] e[1] = "max" -> LET vs == EvalSeq(e[2], st, 1) IN IF AllInts(vs) /\ vs # <<>> THEN I(MaxOf(vs)) ELSE U
+      [] e[1] = "sub" ->
+            LET a == Eval(e[2], st)
+                ix == IF Len(e[3]) = 1 THEN Eval(e[3][1], st) ELSE U IN
+              IF IsA(a) /\ IsI(ix) /\ ix[2] >= 0 /\ ix[2] < Len(a[2]) /\ a[2][ix[2] + 1] # UndefElem
+              THEN I(a[2][ix[2] + 1]) ELSE U
+      [] e[1] = "call" ->
+            IF e[2][1] # "v" THEN U
+            ELSE LET args == EvalSeq(e[3], st, 1)  kw == EvalKw(e[4], st, 1) IN
+                   IF (\E k \in DOMAIN args : args[k] = U) \/ (\E k \in DOMAIN kw : kw[k][2] = U) THEN U
+                   ELSE Apply(e[2][2], args, kw)
+      [] OTHER -> U
 =============================================================================
